@@ -26,7 +26,9 @@ fn qt2() -> ATerm {
 fn universe(full: bool) -> Vec<AQuad> {
     let subjects: Vec<ATerm> = if full { vec![ATerm::b("a"), ATerm::b("b"), ex("x"), qt1(), qt2()] } else { vec![ATerm::b("a"), ATerm::b("b"), ex("x"), qt1()] };
     let preds: Vec<ATerm> = if full { vec![ex("p"), ATerm::b("b"), ATerm::var("v")] } else { vec![ex("p"), ATerm::b("b")] };
-    let objects: Vec<ATerm> = if full { vec![ATerm::b("a"), ATerm::b("b"), ATerm::b("c"), ex("x"), ATerm::lit("l"), qt1(), qt2(), ATerm::var("v")] } else { vec![ATerm::b("a"), ATerm::b("c"), ex("x"), ATerm::lit("l"), qt2()] };
+    // (qt3 = << ex:x _:b _:a >>: a blank node in the predicate position of a quoted triple)
+    let qt3 = ATerm::triple(ex("x"), ATerm::b("b"), ATerm::b("a"));
+    let objects: Vec<ATerm> = if full { vec![ATerm::b("a"), ATerm::b("b"), ATerm::b("c"), ex("x"), ATerm::lit("l"), qt1(), qt2(), qt3, ATerm::var("v")] } else { vec![ATerm::b("a"), ATerm::b("c"), ex("x"), ATerm::lit("l"), qt2(), qt3] };
     let graphs: Vec<Option<ATerm>> = vec![None, Some(ATerm::b("a")), Some(ex("x"))];
     let mut v = vec![];
     for g in &graphs {
@@ -301,7 +303,7 @@ pub fn run(tier: Tier) -> Report {
     }
     rep.stats.sample(json!({"quads": quads_nq(&datasets[datasets.len() / 2])}));
     rep.rule = format!(
-        "every generalized dataset of <= {} quads over a {}-quad universe (subjects _:a _:b ex:x <<_:a ex:p _:b>> <<ex:x ex:p <<_:a ex:p \"l\">>>>, predicates ex:p _:b ?v, objects incl. _:c, a literal, both quoted triples and a variable, graph names default / _:a / ex:x) and of <= {} quads over a {}-quad sub-universe; for each: all bijections of its blank node labels onto fresh labels and onto its own labels (swaps), reversed statement order, 4 ordered container pairs (Vec, HashSet, BTreeSet, FastDataset) in both argument orders, and isomorphic_graphs for default-graph datasets: must answer true; every single-edit neighbour (one ground atom replaced, one statement moved between the default graph and a named graph, one statement added/removed, two labels merged, one label split) that differs in size, blank node count or bnode-blanked statements must answer false in both argument orders; non-trivial = datasets with blank nodes",
+        "every generalized dataset of <= {} quads over a {}-quad universe (subjects _:a _:b ex:x <<_:a ex:p _:b>> <<ex:x ex:p <<_:a ex:p \"l\">>>>, predicates ex:p _:b ?v, objects incl. _:c, a literal, three quoted triples (one with a blank predicate) and a variable, graph names default / _:a / ex:x) and of <= {} quads over a {}-quad sub-universe; for each: all bijections of its blank node labels onto fresh labels and onto its own labels (swaps), reversed statement order, 4 ordered container pairs (Vec, HashSet, BTreeSet, FastDataset) in both argument orders, and isomorphic_graphs for default-graph datasets: must answer true; every single-edit neighbour (one ground atom replaced, one statement moved between the default graph and a named graph, one statement added/removed, two labels merged, one label split) that differs in size, blank node count or bnode-blanked statements must answer false in both argument orders; non-trivial = datasets with blank nodes",
         tier.pick(1, 2),
         full.len(),
         tier.pick(2, 3),
